@@ -38,6 +38,8 @@ CG = {
     'dbl': '[$][#X]=[#Y][$]',
     'surplus': '[$][#X][$][$]',
     'mult': '[$][#X]|2[#Y][$]',
+    'bmult': '[$][#X]([#Y])|2[$]',
+    'bmult-end': '[>][#X][<]([#Y])|2',
     'free': '[>][#X;k=v][#X][<]',
     'dird': '[<][#X][#Y]=[>]',
 }
